@@ -514,7 +514,8 @@ type c03Explorer struct {
 
 	nHist, nPoints, nImg1, nImg1Distinct, nImg2, nImg2Distinct atomic.Int64
 	nRepair, nEOF, nNotExist, nHkRemovals, nSkipped2           atomic.Int64
-	nTornImages, nInsideOp, nNonExhaustiveTear                 atomic.Int64
+	nTornImages, nInsideOp, nNonExhaustiveTear, nMultiUnsynced atomic.Int64
+	stop                                                       atomic.Bool // budget used up
 	sampleMu                                                   sync.Mutex
 	nSamples                                                   map[string]int
 }
@@ -618,7 +619,23 @@ func (e *c03Explorer) exploreHistory(w *c03Worker, ops []c03Op) {
 		if !st.Exhaustive(e.tear) {
 			e.nNonExhaustiveTear.Add(1)
 		}
+		if st.Reduced(e.tear) {
+			e.r.Cap("a crash point with several files holding long un-synced suffixes: product of torn lengths reduced to one-file-at-a-time")
+		}
+		unsynced := 0
+		for i := range st.Files {
+			if st.Files[i].Unsynced() > 0 {
+				unsynced++
+			}
+		}
+		if unsynced > 1 {
+			e.nMultiUnsynced.Add(1)
+		}
 		st.Images(e.tear, func(img *crashfs.Image, tears []crashfs.Tear) bool {
+			if e.stop.Load() || (e.nImg1.Load()%256 == 0 && e.r.Expired()) {
+				e.stop.Store(true)
+				return false
+			}
 			e.exploreImage1(w, h, opNames, k1, floor, synced, img, tears)
 			return true
 		})
@@ -700,6 +717,10 @@ func (e *c03Explorer) exploreSecond(w *c03Worker, c c03Case, cy1 *c03Cycle) {
 			must = len(app2)
 		}
 		st.Images(e.tear, func(img *crashfs.Image, tears []crashfs.Tear) bool {
+			if e.stop.Load() || (e.nImg2.Load()%256 == 0 && e.r.Expired()) {
+				e.stop.Store(true)
+				return false
+			}
 			e.nImg2.Add(1)
 			k := fmt.Sprintf("%s|%d", img.Key(), must)
 			if local[k] {
@@ -849,7 +870,7 @@ func TestVerifC03(t *testing.T) {
 	r := ev.Start(t, "C03", "fault_enumeration")
 	r.SetBudget(80*time.Second, 14*time.Minute)
 	e := &c03Explorer{r: r, seen1: newC03Set(), seen2: newC03Set(), nSamples: map[string]int{}, second: true}
-	e.tear = &crashfs.TearOptions{AllUpTo: 64, Boundaries: c03Boundaries}
+	e.tear = &crashfs.TearOptions{AllUpTo: 64, Boundaries: c03Boundaries, MaxProduct: 4096}
 	full := []c03Op{c03W0, c03W1, c03W5, c03W4100, c03Sync, c03Shift, c03HkSoon, c03HkLate, c03Reopen}
 	reduced := []c03Op{c03W5, c03W4100, c03Sync, c03Shift, c03HkLate, c03Reopen}
 	type phase struct {
@@ -912,7 +933,8 @@ func TestVerifC03(t *testing.T) {
 			}
 			var capped atomic.Bool
 			ev.Par(n, 16, func(i int) {
-				if capped.Load() {
+				if capped.Load() || e.stop.Load() {
+					capped.Store(true)
 					return
 				}
 				if i%64 == 0 && r.Expired() {
@@ -929,7 +951,7 @@ func TestVerifC03(t *testing.T) {
 				defer func() { c03Workers <- w }()
 				e.exploreHistory(w, ops)
 			})
-			if capped.Load() {
+			if capped.Load() || e.stop.Load() {
 				allDone = false
 				break
 			}
@@ -944,6 +966,7 @@ func TestVerifC03(t *testing.T) {
 	r.Set("crash_points_first_generation", e.nPoints.Load())
 	r.Set("crash_points_inside_an_operation", e.nInsideOp.Load())
 	r.Set("crash_points_with_boundary_focused_tear_set", e.nNonExhaustiveTear.Load())
+	r.Set("crash_points_with_more_than_one_unsynced_file", e.nMultiUnsynced.Load())
 	r.Set("crash_images_first_generation", e.nImg1.Load())
 	r.Set("crash_images_first_generation_distinct_cases_run", e.nImg1Distinct.Load())
 	r.Set("crash_images_first_generation_torn_or_inside_op_run", e.nTornImages.Load())
